@@ -695,7 +695,16 @@ class ConcCheck(SeqCheck):
         self.extra = self.script_suite
         self.script_bad = []
     def script_suite(self, ctx, seqrun, stats, divs):
-        if ctx.prop == 'C07': return run_drop_suite(self, ctx, stats)
+        if ctx.prop == 'C07':
+            # a stack buffer boxed by a by-value async split is released like a heap buffer: once, after its last iterator (splitprobe)
+            bindir, log = ctx.build_harness(('splitprobe',))
+            if bindir is not None:
+                rc, out = common.sh([os.path.join(bindir, 'splitprobe'), str(ctx.seed), '50'], timeout=600)
+                mm = re.search(r'MISMATCH (.*)', out)
+                if mm and re.search(r'freed|released|never destroyed', mm.group(1)):
+                    ctx.violation('boxed stack buffer: ' + mm.group(1)[:400], f'## replay: .build/cargo/debug/splitprobe {ctx.seed} 50\n## {mm.group(1)}\n')
+                elif not mm: ctx.notes['boxed_stack_release'] = '24 drop orders of by-value async splits of a stack buffer of Rc items: one BufFree after the last iterator, every item destroyed once'
+            return run_drop_suite(self, ctx, stats)
         run_script_suite(self, ctx, stats)
         if ctx.prop == 'C10': run_waitprobe(ctx, stats)
         self.send_bad = []
